@@ -62,6 +62,10 @@ HasEv == l <= Len(T)
 MatchAt(eff, e) ==
     CASE eff = "exit" ->
             /\ e.e = "exit" /\ e.status = exit /\ e.report = reportShown /\ e.open = 0 /\ e.waits <= Total(nConn)
+            \* the group-exchange sizes the report shows are the sizes the probe loop recorded - also when probes were faulted
+            /\ (e.sizes.known /\ reportShown) =>
+                  /\ e.sizes.sha1 = (IF GexOrder[1] \in DOMAIN reported THEN reported[GexOrder[1]].bits ELSE 0)
+                  /\ e.sizes.sha256 = (IF GexOrder[2] \in DOMAIN reported THEN reported[GexOrder[2]].bits ELSE 0)
       [] eff = "readfail" -> e.e = "readfail" /\ e.kind = (IF lastRead'[2] = "stall" THEN "timeout" ELSE "eof")
                              /\ (lastRead'[2] = "mismatch" => e.mismatch)     \* the version-mismatch text was what the peer sent
       [] eff = "connect-nb" -> e.e = "connect" /\ e.nb /\ e.ok = (rate'.inflight = rate.inflight + 1)
